@@ -35,8 +35,11 @@ func runC15Rst(c *Ctx) {
 			nc = 1
 		}
 		k := img{nc: nc, class: classes[rng.Intn(len(classes))], w: rng.Range(1, 40), h: rng.Range(1, 40), q: rng.Range(1, 100)}
-		if rng.Intn(4) == 0 {
+		switch rng.Intn(4) {
+		case 0:
 			k.w, k.h = rng.Pick(1, 8, 16, 17, 33, 40), rng.Pick(1, 8, 16, 17, 33, 40)
+		case 1, 2: // several MCUs, so that restart markers really occur
+			k.w, k.h = rng.Range(17, 40), rng.Range(9, 40)
 		}
 		if i%6 == 0 {
 			k.q = []int{1, 50, 100, 10, 90}[(i/6)%5]
